@@ -212,8 +212,33 @@ Fixpoint subport_split (n e : str) : option str :=
   end.
 
 (* when such a sub-tree is disabled the walker is still applied to the enabling
-   port: ask_port = port.ports[toggle], at collapsePath(name_buffer ++ "../" ++ enable_port) *)
+   port: ask_port = port.ports[toggle], at name_buffer ++ toggle - the sub-tree's own
+   (expanded) address followed by what stands behind "name/" in the property (since
+   the commit "fix: the enabling port inside a disabled enumerated sub-tree ...";
+   before: collapsePath(name_buffer ++ "../" ++ enable_port), sub_toggle_pinned) *)
 Definition sub_toggle (q : port) (b : str) : option (nat * str) :=
+  match q with
+  | Port qn (Some m) (Some sub) =>
+      match meta m with
+      | Some s =>
+          match lookup s enabled_by with
+          | Some (Some v) =>
+              match subport_split qn v with
+              | Some e' =>
+                  match index_op sub e' with
+                  | Some j => Some (j, b ++ e')
+                  | None => None
+                  end
+              | None => None
+              end
+          | _ => None
+          end
+      | None => None
+      end
+  | _ => None
+  end.
+
+Definition sub_toggle_pinned (q : port) (b : str) : option (nat * str) :=
   match q with
   | Port qn (Some m) (Some sub) =>
       match meta m with
